@@ -365,9 +365,20 @@ fn expressible(r: &Req) -> bool {
 #[derive(Debug)]
 enum Wire {
     Resp { version: u8, status: u16, headers: Vec<(Vec<u8>, Vec<u8>)>, body: Vec<u8> },
-    /// HTTP/1.1 only: as `Resp`, and the server closed the connection after it (`connection: close`)
-    Closed { version: u8, status: u16, headers: Vec<(Vec<u8>, Vec<u8>)>, body: Vec<u8> },
+    /// HTTP/1.1 only: as `Resp`, and the server closed the connection after it (`connection: close`).  `clean`: the end of
+    /// the connection was an orderly one — TLS: the close_notify alert arrived before the end of the TCP stream; plain TCP:
+    /// FIN, not a reset.  (A body that is delimited by the end of the connection never gets here with `clean = false`:
+    /// that is the failure "body not cleanly terminated", see `read_response`.)
+    Closed { version: u8, status: u16, headers: Vec<(Vec<u8>, Vec<u8>)>, body: Vec<u8>, clean: bool },
     Refused,
+}
+/// how an HTTP/1.1 connection ended, as its client sees it
+enum End {
+    /// TLS: close_notify, then the end of the TCP stream; plain TCP: FIN
+    Clean,
+    /// TLS: the TCP stream ended (or failed) and no close_notify had arrived — the end is not authenticated, what came
+    /// before it may have been cut short by anyone on the path (RFC 8446 6.1); plain TCP: the connection was reset
+    Unclean(String),
 }
 /// After a response that says `connection: close` the server has to end the connection itself, at once: kvarn would
 /// otherwise only do so when its idle time-out (seconds) expires.  2.5 s is more than 2 s away from either.
@@ -390,8 +401,10 @@ fn x_wire(w: &Wire) -> X {
         Wire::Resp { version, status, headers, body } => {
             X::ok(X::L(vec![X::N(0), X::L(vec![X::n(*version), X::n(*status), x_headers(headers), X::b(body)])]))
         }
-        Wire::Closed { version, status, headers, body } => {
-            X::ok(X::L(vec![X::N(5), X::L(vec![X::n(*version), X::n(*status), x_headers(headers), X::b(body)])]))
+        // (N 5): the connection ended in an orderly way; (N 6): it ended without close_notify / by a reset, after a
+        // response that is complete without that end (HEAD, content-length)
+        Wire::Closed { version, status, headers, body, clean } => {
+            X::ok(X::L(vec![X::N(if *clean { 5 } else { 6 }), X::L(vec![X::n(*version), X::n(*status), x_headers(headers), X::b(body)])]))
         }
         Wire::Refused => X::ok(X::L(vec![X::N(3)])),
     }
@@ -508,12 +521,13 @@ async fn connect_tls(desc: Target, cfg: Arc<rustls::ClientConfig>, want_alpn: &[
 struct H1 {
     s: Box<dyn Io>,
     pending: Vec<u8>,
+    secure: bool,
 }
 impl H1 {
     async fn open(desc: impl Into<Target>, secure: bool) -> Result<H1, String> {
         let desc = desc.into();
         let s: Box<dyn Io> = if secure { Box::new(connect_tls(desc, tls().client_h1.clone(), b"http/1.1").await?) } else { Box::new(connect(desc).await?) };
-        Ok(H1 { s, pending: Vec::new() })
+        Ok(H1 { s, pending: Vec::new(), secure })
     }
     async fn fill(&mut self, buf: &mut Vec<u8>, what: &str) -> Result<(), String> {
         let mut tmp = [0u8; 8192];
@@ -572,14 +586,18 @@ impl H1 {
     }
     /// the rest of the connection after a response that said `connection: close`: everything up to the end of the
     /// connection, which the server has to bring about itself within `CLOSE_WITHIN` of its last byte
-    async fn read_to_close(&mut self, buf: &mut Vec<u8>) -> Result<(), String> {
+    ///
+    /// HOW it ended is part of the result: over TLS `read` returns 0 only after the peer's close_notify alert (rustls reports
+    /// the end of the TCP stream without it as the error "peer closed connection without sending TLS close_notify"); over
+    /// plain TCP 0 is the peer's FIN and an error is a reset.  The connection is gone either way, but only an orderly end
+    /// can delimit a body.
+    async fn read_to_close(&mut self, buf: &mut Vec<u8>) -> Result<End, String> {
         let mut tmp = [0u8; 8192];
         loop {
             match tokio::time::timeout(CLOSE_WITHIN, self.s.read(&mut tmp)).await {
-                Ok(Ok(0)) => return Ok(()),
+                Ok(Ok(0)) => return Ok(End::Clean),
                 Ok(Ok(n)) => buf.extend_from_slice(&tmp[..n]),
-                // (a TLS peer that goes away without close_notify, a reset: the connection is gone all the same)
-                Ok(Err(_)) => return Ok(()),
+                Ok(Err(e)) => return Ok(End::Unclean(e.to_string())),
                 Err(_) => return Err("the response said connection: close, but the server did not end the connection".into()),
             }
         }
@@ -630,7 +648,7 @@ impl H1 {
         let closing = headers.iter().any(|(n, v)| n == b"connection" && v.eq_ignore_ascii_case(b"close"));
         if closing {
             // the body ends with the connection, or after `content-length` bytes with nothing but the end behind them
-            self.read_to_close(&mut buf).await?;
+            let end = self.read_to_close(&mut buf).await?;
             let body = if head { Vec::new() } else { buf[head_end..].to_vec() };
             if head && buf.len() > head_end {
                 return Err(format!("{} bytes after the head of a HEAD answer", buf.len() - head_end));
@@ -640,7 +658,21 @@ impl H1 {
                     return Err(format!("content-length {n}, but {} bytes before the end of the connection", body.len()));
                 }
             }
-            return Ok(Wire::Closed { version, status, headers: canon_headers(headers), body });
+            // A body that nothing but the end of the connection delimits is complete only if that end is an orderly one:
+            // over TLS the close_notify alert must have arrived (a strict client — hyper, curl — reports anything else as a
+            // truncated body, as it cannot be told from an attack), over plain TCP the connection must not have been reset.
+            if let End::Unclean(e) = &end {
+                if !head && clen.is_none() {
+                    return Err(format!(
+                        "body not cleanly terminated: the response ({status}, connection: close, no content-length) is delimited by the end of the \
+                         connection, and the {} connection ended {} after {} body bytes ({e}) - the body cannot be told from a truncated one",
+                        if self.secure { "TLS" } else { "TCP" },
+                        if self.secure { "without close_notify" } else { "by a reset" },
+                        body.len()
+                    ));
+                }
+            }
+            return Ok(Wire::Closed { version, status, headers: canon_headers(headers), body, clean: matches!(end, End::Clean) });
         }
         let want = if head { 0 } else { clen.ok_or("no content-length")? };
         while buf.len() < head_end + want {
@@ -1418,6 +1450,300 @@ fn sbody(x: &X) -> X {
     out
 }
 
+// -------------------------------------------------------------------------------------------
+// the request-head limits of the two front ends
+// -------------------------------------------------------------------------------------------
+/// "proto.head": (L cfg request) -> (L h1 h2), each `(L)` = the request was not answered | `(L (N status))`.
+/// One request — to the sentinel page, which answers 200 whatever the request says — on a fresh HTTP/1.1 (TLS) connection and
+/// on a fresh HTTP/2 connection to identical fresh hosts.  The head the HTTP/1.1 client writes is
+/// `<method> <target> HTTP/1.1\r\nhost: localhost:8443\r\n` + `<name>: <value>\r\n` per field + `\r\n`; the header list of the
+/// HTTP/2 request is :method, :scheme = https, :authority = localhost:8443, :path and the same fields.
+/// Not answered = the server ended the connection / reset the stream without a response head (anything that is not
+/// harness trouble); a time-out is trouble, never "not answered".
+fn head_once(x: &X) -> X {
+    let Some([cfg, req]) = x.as_l() else { return X::bad() };
+    let Some(req) = parse_req(req) else { return X::bad() };
+    if !expressible(&req) || !req.body.is_empty() {
+        return X::L(vec![X::N(96)]);
+    }
+    let (Some(ba), Some(bb)) = (build(cfg), build(cfg)) else { return X::bad() };
+    let (da, db) = (descriptor(&ba, true), descriptor(&bb, true));
+    let out = rt().block_on(async move {
+        let r1 = async {
+            let mut h1 = H1::open(da, true).await.map_err(|e| format!("open: h1: {e}"))?;
+            h1.exchange(&req).await
+        }
+        .await;
+        let r2 = async {
+            let mut h2 = H2::open(db).await.map_err(|e| format!("open: h2: {e}"))?;
+            h2.exchange(&req).await
+        }
+        .await;
+        let mut out = Vec::new();
+        for (i, r) in [r1, r2].into_iter().enumerate() {
+            match r {
+                Ok(Wire::Resp { status, .. }) | Ok(Wire::Closed { status, .. }) => out.push(X::L(vec![X::n(status)])),
+                Ok(Wire::Refused) => out.push(X::L(vec![])),
+                Err(e) if is_trouble(&e) || e.contains("open:") => return fail(i, e),
+                Err(_) => out.push(X::L(vec![])),
+            }
+        }
+        X::L(out)
+    });
+    cleanup(&ba);
+    cleanup(&bb);
+    out
+}
+/// "not answered" is an outcome only when a second run with fresh hosts agrees
+fn head(x: &X) -> X {
+    let a = head_once(x);
+    let unanswered = |o: &X| o.as_l().map_or(false, |l| l.len() == 2 && l.iter().any(|e| e.as_l().map_or(false, |v| v.is_empty())));
+    if !unanswered(&a) {
+        return a;
+    }
+    std::thread::sleep(Duration::from_millis(40));
+    let b = head_once(x);
+    let (mut ta, mut tb) = (String::new(), String::new());
+    a.write(&mut ta);
+    b.write(&mut tb);
+    if ta == tb || tb.starts_with("(L (N 9") {
+        b
+    } else {
+        fail(0, "open: the outcome of this request is not stable".into())
+    }
+}
+
+// -------------------------------------------------------------------------------------------
+// streams the client resets, with the frames under the harness's control
+// -------------------------------------------------------------------------------------------
+/// HPACK integer with a `prefix`-bit prefix (RFC 7541 5.1), `first` = the bits above the prefix
+fn hpack_int(out: &mut Vec<u8>, first: u8, prefix: u8, mut n: usize) {
+    let max = (1usize << prefix) - 1;
+    if n < max {
+        out.push(first | n as u8);
+        return;
+    }
+    out.push(first | max as u8);
+    n -= max;
+    while n >= 128 {
+        out.push((n % 128) as u8 | 0x80);
+        n /= 128;
+    }
+    out.push(n as u8);
+}
+fn hpack_str(out: &mut Vec<u8>, s: &[u8]) {
+    hpack_int(out, 0, 7, s.len()); // no Huffman coding
+    out.extend_from_slice(s);
+}
+/// the header block of a request: literal fields without indexing (names of the pseudo-headers from the static table)
+fn hpack_request(r: &Req) -> Vec<u8> {
+    let mut b = Vec::new();
+    for (idx, v) in [(2usize, &r.method[..]), (7, b"https"), (1, b"localhost:8443"), (4, &r.target[..])] {
+        hpack_int(&mut b, 0, 4, idx);
+        hpack_str(&mut b, v);
+    }
+    for (n, v) in r.headers.iter().filter(|(n, _)| n != LATE) {
+        b.push(0);
+        hpack_str(&mut b, n);
+        hpack_str(&mut b, v);
+    }
+    b
+}
+fn h2_frame(out: &mut Vec<u8>, ty: u8, flags: u8, sid: u32, payload: &[u8]) {
+    out.extend_from_slice(&(payload.len() as u32).to_be_bytes()[1..]);
+    out.push(ty);
+    out.push(flags);
+    out.extend_from_slice(&sid.to_be_bytes());
+    out.extend_from_slice(payload);
+}
+/// `:status` of a response header block as h2 writes it: first field; indexed (200, 204, 206, 304, 400, 404, 500) or a literal
+/// with the name index 8 .. 14.  0 = not understood.
+fn hpack_status(mut b: &[u8]) -> u16 {
+    while let Some(&c) = b.first() {
+        if c & 0xE0 == 0x20 {
+            b = &b[1..]; // dynamic table size update
+        } else {
+            break;
+        }
+    }
+    let Some(&c) = b.first() else { return 0 };
+    if c & 0x80 != 0 {
+        return match c & 0x7F {
+            8 => 200,
+            9 => 204,
+            10 => 206,
+            11 => 304,
+            12 => 400,
+            13 => 404,
+            14 => 500,
+            _ => 0,
+        };
+    }
+    // literal: 01xxxxxx (incremental indexing, 6-bit index), 0000xxxx / 0001xxxx (4-bit index)
+    let idx = if c & 0x40 != 0 { c & 0x3F } else { c & 0x0F };
+    if !(8..=14).contains(&idx) || b.len() < 5 {
+        return 0;
+    }
+    if b[1] == 3 {
+        return std::str::from_utf8(&b[2..5]).ok().and_then(|s| s.parse().ok()).unwrap_or(0);
+    }
+    if b[1] != 0x83 {
+        return 0;
+    }
+    // three digits in the Huffman code of RFC 7541: '0'..'2' = 00000..00010 (5 bits), '3'..'9' = 011001..011111 (6 bits)
+    let bits = u32::from_be_bytes([0, b[2], b[3], b[4]]);
+    let (mut pos, mut st) = (24u32, 0u16);
+    for _ in 0..3 {
+        if pos < 6 {
+            return 0;
+        }
+        let five = (bits >> (pos - 5)) & 0x1F;
+        if five <= 2 {
+            st = st * 10 + five as u16;
+            pos -= 5;
+        } else {
+            let six = (bits >> (pos - 6)) & 0x3F;
+            if !(0x19..=0x1F).contains(&six) {
+                return 0;
+            }
+            st = st * 10 + (six - 0x19 + 3) as u16;
+            pos -= 6;
+        }
+    }
+    st
+}
+
+/// "proto.rst": (L cfg (L request ...) (L reset_index ...) (L (L limited status) ...)) -> (L (L (L sid status) ...) alive)
+/// A fresh HTTP/2 connection (TLS, ALPN h2) written by hand: the client preface, SETTINGS, one HEADERS frame (END_STREAM) per
+/// request - stream ids 1, 3, 5, ... - and RST_STREAM(CANCEL) for the streams named, ALL IN ONE WRITE (one TLS record): the server's
+/// h2 reads the requests and the resets in the same poll, so `accept` hands kvarn streams the client has already reset -
+/// which otherwise happens only when a reset overtakes kvarn's accept loop.  The client then reads frames until every stream
+/// it did not reset has been answered completely (END_STREAM), and checks with a PING that the connection is still served.
+/// Output: the streams (not reset by the client) that were answered, with their status, in stream order; alive = 1 / 0 = the
+/// connection ended (or GOAWAY) before that.  A time-out is harness trouble, never an outcome.
+fn rst_once(x: &X) -> X {
+    // (a fourth element - the limiter's verdict and the page's status per request - is for the model only)
+    let Some([cfg, reqs, resets, ..]) = x.as_l() else { return X::bad() };
+    let (Some(reqs), Some(resets)) = (parse_reqs(reqs), resets.as_l()) else { return X::bad() };
+    let resets: Vec<usize> = resets.iter().filter_map(|r| r.as_n().map(|n| n as usize)).collect();
+    if !reqs.iter().all(|r| expressible(r) && r.body.is_empty()) || reqs.len() > 1000 {
+        return X::L(vec![X::N(96)]);
+    }
+    let Some(b) = build(cfg) else { return X::bad() };
+    let desc = descriptor(&b, true);
+    let out = rt().block_on(async move {
+        let mut s = match connect_tls(desc.into(), tls().client_h2.clone(), b"h2").await {
+            Ok(s) => s,
+            Err(e) => return fail(0, format!("open: h2 (raw): {e}")),
+        };
+        let mut out = b"PRI * HTTP/2.0\r\n\r\nSM\r\n\r\n".to_vec();
+        // SETTINGS_HEADER_TABLE_SIZE = 0: the server's HPACK encoder uses no dynamic table, every `:status` is the static index
+        // or a literal (`hpack_status` needs no decoder state)
+        h2_frame(&mut out, 4, 0, 0, &[0, 1, 0, 0, 0, 0]);
+        for (i, r) in reqs.iter().enumerate() {
+            h2_frame(&mut out, 1, 0x5, 2 * i as u32 + 1, &hpack_request(&resolve(r)));
+        }
+        for &i in &resets {
+            h2_frame(&mut out, 3, 0, 2 * i as u32 + 1, &8u32.to_be_bytes());
+        }
+        if s.write_all(&out).await.is_err() || s.flush().await.is_err() {
+            return fail(0, "open: h2 (raw): write".into());
+        }
+        let want: Vec<u32> = (0..reqs.len()).filter(|i| !resets.contains(i)).map(|i| 2 * i as u32 + 1).collect();
+        let mut status: std::collections::BTreeMap<u32, u16> = Default::default();
+        let mut ended: std::collections::BTreeSet<u32> = Default::default();
+        let mut buf: Vec<u8> = Vec::new();
+        let mut alive = true;
+        let mut pinged = false;
+        let deadline = tokio::time::Instant::now() + T;
+        'conn: loop {
+            if !pinged && want.iter().all(|sid| ended.contains(sid)) {
+                let mut ping = Vec::new();
+                h2_frame(&mut ping, 6, 0, 0, b"c20-ping");
+                if s.write_all(&ping).await.is_err() || s.flush().await.is_err() {
+                    alive = false;
+                    break;
+                }
+                pinged = true;
+            }
+            // one frame
+            while buf.len() < 9 || buf.len() < 9 + u32::from_be_bytes([0, buf[0], buf[1], buf[2]]) as usize {
+                let mut tmp = [0u8; 16384];
+                match tokio::time::timeout_at(deadline, s.read(&mut tmp)).await {
+                    Err(_) => return fail(0, timed_out("h2 (raw) frames")),
+                    Ok(Ok(0)) | Ok(Err(_)) => {
+                        alive = false;
+                        break 'conn;
+                    }
+                    Ok(Ok(n)) => buf.extend_from_slice(&tmp[..n]),
+                }
+            }
+            let len = u32::from_be_bytes([0, buf[0], buf[1], buf[2]]) as usize;
+            let (ty, flags) = (buf[3], buf[4]);
+            let sid = u32::from_be_bytes([buf[5] & 0x7F, buf[6], buf[7], buf[8]]);
+            let payload: Vec<u8> = buf[9..9 + len].to_vec();
+            buf.drain(..9 + len);
+            match ty {
+                // DATA / HEADERS: END_STREAM = 0x1
+                0 | 1 => {
+                    if ty == 1 {
+                        // (no padding, no priority in what h2 sends)
+                        status.entry(sid).or_insert_with(|| hpack_status(&payload));
+                    }
+                    if flags & 0x1 != 0 {
+                        ended.insert(sid);
+                    }
+                }
+                // RST_STREAM from the server: that stream is over, unanswered unless it had ended
+                3 => {}
+                // SETTINGS: acknowledge
+                4 if flags & 0x1 == 0 => {
+                    let mut ack = Vec::new();
+                    h2_frame(&mut ack, 4, 0x1, 0, &[]);
+                    if s.write_all(&ack).await.is_err() || s.flush().await.is_err() {
+                        alive = false;
+                        break;
+                    }
+                }
+                // PING ack: the connection is served
+                6 if flags & 0x1 != 0 && pinged => break,
+                // GOAWAY
+                7 => {
+                    alive = false;
+                    break;
+                }
+                _ => {}
+            }
+        }
+        let answered: Vec<X> = want
+            .iter()
+            .filter(|sid| ended.contains(sid) && status.contains_key(sid))
+            .map(|sid| X::L(vec![X::n(*sid), X::n(status[sid])]))
+            .collect();
+        X::L(vec![X::L(answered), X::bool(alive)])
+    });
+    cleanup(&b);
+    out
+}
+fn rst(x: &X) -> X {
+    // an outcome in which the connection did not survive counts only if a second run (fresh host, fresh connection) agrees
+    let a = rst_once(x);
+    let mut ta = String::new();
+    a.write(&mut ta);
+    if ta.starts_with("(L (N 9") || ta.ends_with("(N 1))") {
+        return a;
+    }
+    std::thread::sleep(Duration::from_millis(40));
+    let b2 = rst_once(x);
+    let mut tb = String::new();
+    b2.write(&mut tb);
+    if ta == tb || tb.starts_with("(L (N 9") {
+        b2
+    } else {
+        fail(0, "open: the outcome of this burst is not stable".into())
+    }
+}
+
 pub fn dispatch(comp: &str, x: &X) -> Option<X> {
     Some(match comp {
         "proto.l4" => l4(x),
@@ -1429,6 +1755,8 @@ pub fn dispatch(comp: &str, x: &X) -> Option<X> {
         "proto.burst1" => burst(x, false, 1),
         "proto.body" => body(x),
         "proto.sbody" => sbody(x),
+        "proto.head" => head(x),
+        "proto.rst" => rst(x),
         "proto.alone" => alone(x, true),
         "proto.alone1" => alone(x, false),
         _ => return None,
